@@ -123,6 +123,14 @@ func ttestRecord(out io.Writer, args []string) error {
 		case 3:
 			shift, sp2 = 2*sp, sp/3+1
 		}
+		// "tracking pairs" (every seventh history): large values (2^33) whose second sample follows the first at a distance
+		// of 2^10 + {0,1,2}, tested against mu0 = 2^10 + 1 - the mean of the differences is O(1) away from mu0 while the two
+		// means themselves are 2^33: a statistic built from Mean(x1) - Mean(x2) instead of the mean difference loses it
+		track := rng.Intn(7) == 0
+		const trackD = int64(1) << 10
+		if track {
+			off, sp = 1<<33, 1<<20 // (offset / spread stays at 2^13, the recorder's limit for the MeanCI tolerances)
+		}
 		const1, const2 := rng.Intn(12) == 0, rng.Intn(12) == 0
 		var iv [2][]int64 // the integer data
 		draw := func(a int) int64 {
@@ -131,6 +139,12 @@ func ttestRecord(out io.Writer, args []string) error {
 					return off
 				}
 				return off + int64(math.Round(rng.NormFloat64()*float64(sp)))
+			}
+			if track { // the i-th value of the second sample follows the i-th of the first (when that exists already)
+				if i := len(iv[1]); i < len(iv[0]) {
+					return iv[0][i] - trackD - int64((i*7)%3)
+				}
+				return off - trackD + int64(math.Round(rng.NormFloat64()*float64(sp)))
 			}
 			if const2 {
 				return off + shift
@@ -144,8 +158,11 @@ func ttestRecord(out io.Writer, args []string) error {
 			}
 			return o
 		}
-		equal := rng.Intn(2) == 0
+		equal := rng.Intn(2) == 0 || track
 		rounds := 1 + rng.Intn(3)
+		if track {
+			const1, const2, sp2, shift = false, false, sp, 0
+		}
 		// sizes that differ by a multiple of 32 (or 16, 64): table-driven or blocked implementations alias exactly there
 		stride := 0
 		if rng.Intn(5) == 0 && *maxN >= 40 {
@@ -196,6 +213,9 @@ func ttestRecord(out io.Writer, args []string) error {
 				far <<= 1
 			}
 			muInt := []int64{0, sp / 2, -sp, off, far, -far}[rng.Intn(6)]
+			if track {
+				muInt = trackD + 1
+			}
 			for _, kind := range []string{"pooled", "welch", "paired", "one"} {
 				for swap := 0; swap < 2; swap++ {
 					mus := []int64{0}
